@@ -56,6 +56,10 @@ fn show_date_error(e: &DateError) -> String {
         DateError::SkippedDate { year, month, day } => {
             format!("E:SkippedDate/{year}/{}/{day}", month.number())
         }
+        // a variant this harness does not know (the enums may grow): shown as it prints itself, so that
+        // an addition that is never returned changes nothing and one that is returned shows up
+        #[allow(unreachable_patterns)]
+        ref other => format!("E:other/{other:?}"),
     }
 }
 
@@ -79,6 +83,8 @@ fn show_parse_err(e: &ParseDateError) -> String {
         }
         ParseDateError::UnexpectedEnd { expected } => format!("P:UnexpectedEnd/{}", *expected as u32),
         ParseDateError::ParseInt(_) => "P:ParseInt".into(),
+        #[allow(unreachable_patterns)]
+        other => format!("P:other/{other:?}"),
     }
 }
 
@@ -89,6 +95,8 @@ fn show_year_kind(k: YearKind) -> &'static str {
         YearKind::ReformCommon => "ReformCommon",
         YearKind::ReformLeap => "ReformLeap",
         YearKind::Skipped => "Skipped",
+        #[allow(unreachable_patterns)]
+        _ => "OtherYearKind",
     }
 }
 
@@ -98,6 +106,8 @@ fn show_month_kind(k: MonthKind) -> &'static str {
         MonthKind::Headless => "Headless",
         MonthKind::Tailless => "Tailless",
         MonthKind::Gapped => "Gapped",
+        #[allow(unreachable_patterns)]
+        _ => "OtherMonthKind",
     }
 }
 
@@ -181,6 +191,8 @@ pub fn cal_of_tok(t: &str) -> Result<Calendar, String> {
                 Ok(c) => Ok(c),
                 Err(ReformingError::InvalidReformation) => Err("BADCAL:InvalidReformation".into()),
                 Err(ReformingError::Arithmetic) => Err("BADCAL:Arithmetic".into()),
+                #[allow(unreachable_patterns)]
+                Err(other) => Err(format!("BADCAL:other/{other:?}")),
             }
         }
     }
@@ -610,6 +622,8 @@ fn answer_lib(line: &str) -> String {
                 Ok(c) => format!("OK {}", boundary(&c)),
                 Err(ReformingError::InvalidReformation) => "E:InvalidReformation".into(),
                 Err(ReformingError::Arithmetic) => "E:Arithmetic".into(),
+                #[allow(unreachable_patterns)]
+                Err(other) => format!("E:other/{other:?}"),
             }
         }
         ["boundary", ct] => boundary(&cal!(ct)),
@@ -728,6 +742,22 @@ fn answer_lib(line: &str) -> String {
             }
             if let Some(s) = c.month_shape(y, mo) {
                 n += format!("{s:?}{:?}{:?}", s.days(), s.dates()).len();
+                // the iterators in every state a user can bring them to: partly consumed from either
+                // end, exhausted (a hand-written Debug may look at items that are no longer there)
+                let (mut ds, mut dt) = (s.days(), s.dates());
+                ds.next();
+                dt.next_back();
+                n += format!("{ds:?}{dt:?}{ds:#?}{dt:#?}").len();
+                while ds.next_back().is_some() {}
+                while dt.next().is_some() {}
+                n += format!("{ds:?}{dt:?}").len();
+                let mut mi = julian::iter::MonthIter::new();
+                mi.next_back();
+                n += format!("{mi:?}").len();
+                while mi.next().is_some() {}
+                n += format!("{mi:?}").len();
+                let d0 = c.at_jdn(j);
+                n += format!("{:?}{:?}{:?}{:?}", d0.later(), d0.earlier(), d0.and_later(), d0.and_earlier()).len();
             }
             let _ = n;
             "OK".into()
